@@ -139,7 +139,7 @@ def run_unit(u):
                         # exhaustive scope; in the seeded random scope the structural predicate
                         # "the grammar has an empty production"
                         if spec.exhaustive:
-                            v["fingerprint"] = h16(["F-GLR-1", gtxt, tname, case["input"]])
+                            v["fingerprint"] = h16(["F-GLR-1", gtxt, tname, strip_layout(case["input"])])
                         elif "nullable" in feats:
                             v["attribution"] = "glr-nullable-loss"
                         res["violations"].append(v)
